@@ -80,6 +80,34 @@ def _tx_events(args):
                    [o(lambda p=p: tx.cds.sequence_pos_to_amino_acid(p)) for p in rng_p],
                    E.loc_outcome(tx.get_5p_interval), E.loc_outcome(tx.get_3p_interval),
                    E.loc_outcome(lambda: tx.chromosome_intron_location), E.loc_outcome(lambda: tx.chromosome_span)])
+        if rnd.random() < 0.35:
+            # the same transcript built on a sequence chunk (enclosing it, cutting it, or missing its CDS): every
+            # chromosome-level conversion must answer as on the whole chromosome (txpos, as C07 records them)
+            from inscripta.biocantor.io.parser import seq_chunk_to_parent
+
+            ws = rnd.randrange(0, G)
+            we = rnd.randrange(ws + 1, G + 1)
+            if rnd.random() < 0.3:
+                ws, we = rnd.randrange(0, blocks[0][0] + 1), rnd.randrange(blocks[-1][1], G + 1)
+            B = None
+            try:
+                B = mk_tx(blocks, st, cds, None, frames=frames, parent=seq_chunk_to_parent(root[ws:we], "chr", ws, we))
+                if rnd.random() < 0.3:
+                    E.warm(B)
+            except Exception:
+                B = None
+            if B is not None:
+                aa = [o(lambda p=p: B.cds.sequence_pos_to_amino_acid(p)) for p in rng_p] if (cds and B.cds is not None) \
+                    else [["x", "CdsMissingOnChunk"] for _ in rng_p]
+                ev.append(["txpos", [blocks, st], [cds, st] if cds else [[], "e"], G,
+                           [o(lambda p=p: B.sequence_pos_to_transcript(p)) for p in rng_p],
+                           [o(lambda i=i: B.transcript_pos_to_sequence(i)) for i in range(-1, n + 1)],
+                           [o(lambda p=p: B.sequence_pos_to_cds(p)) for p in rng_p],
+                           [o(lambda i=i: B.cds_pos_to_sequence(i)) for i in range(-1, m + 1)],
+                           [o(lambda i=i: B.transcript_pos_to_cds(i)) for i in range(-1, n + 1)],
+                           [o(lambda i=i: B.cds_pos_to_transcript(i)) for i in range(-1, m + 1)],
+                           aa if cds else [o(lambda p=p: B.cds.sequence_pos_to_amino_acid(p)) for p in rng_p],
+                           E.loc_outcome(lambda: B.chromosome_intron_location), E.loc_outcome(lambda: B.chromosome_span)])
         ents = []
         for _ in range(10):
             kind = rnd.choice(["t2s", "c2s", "s2t", "s2c"])
